@@ -91,6 +91,12 @@ def build(quiet=True) -> BuildInfo:
         if rc2 != 0:
             info.gen_failed.add('Gen/ConnectInterval.v')
             info.translator_msg += '\n' + (out2 + err2).strip()
+        # third translator: in_or_out_set.py -> Gen/InOrOutSet.v (tie: Static/SetsTie.v)
+        rc3, out3, err3 = sh([PY, os.path.join(VERIF, 'harness', 'py2coq_sets.py'), REPO, os.path.join(COQ, 'Gen')], timeout=60)
+        info.translator3_ok = rc3 == 0
+        if rc3 != 0:
+            info.gen_failed.add('Gen/InOrOutSet.v')
+            info.translator_msg += '\n' + (out3 + err3).strip()
         if not os.path.exists(os.path.join(COQ, 'Makefile')) or \
                 os.path.getmtime(os.path.join(COQ, 'Makefile')) < os.path.getmtime(os.path.join(COQ, '_CoqProject')):
             sh('coq_makefile -f _CoqProject -o Makefile', cwd=COQ, timeout=60)
